@@ -189,6 +189,19 @@ Definition has_fmt (ps : list pexpr) : bool := existsb (fun p => match p with EF
 Definition lit_parts (ps : list pexpr) : text :=
   List.concat (map (fun p => match p with EStr s => s | _ => [] end) ps).
 
+(* parser._is_c_string_literal (since the repair of F-C06-literal-concat / F-C01-strlit-concat / F-C01-int-strlit-cond):
+   the expression is emitted as a C string literal, or as a choice between two - its C++ type is const char* *)
+Fixpoint charp_src (e : pexpr) : bool :=
+  match e with
+  | EStr _ => true
+  | EJoined ps => negb (has_fmt ps)
+  | EIfExp _ a b => charp_src a && charp_src b
+  | _ => false
+  end.
+(* `+` of two such expressions: the emitter wraps the left one as String(...) *)
+Definition add_wrap (op : binop) (a b : pexpr) : bool :=
+  match op with Add => charp_src a && charp_src b | _ => false end.
+
 (* _render_pin_argument, after the argument itself was emitted as [c] *)
 Definition render_pin (an : bool) (node : pexpr) (c : cexpr) : tres cexpr :=
   match node with
@@ -218,9 +231,10 @@ Fixpoint to_c (G : tcx) (e : pexpr) {struct e} : tres cexpr :=
       | None => Rejected
       | Some _ =>                    (* type(n.op) in _BIN; the operands are emitted first, then _emit_binop decides *)
           tbind (to_c G a) (fun a' => tbind (to_c G b) (fun b' =>
+          let l' := if add_wrap op a b then CString a' else a' in
           match bin_form op with
-          | Some (0, tok) => TOk (CBin tok a' b')
-          | Some (1, f) => TOk (CCall f [a'; b'])
+          | Some (0, tok) => TOk (CBin tok l' b')
+          | Some (1, f) => TOk (CCall f [l'; b'])
           | _ => Rejected
           end))
       end
@@ -262,7 +276,7 @@ Fixpoint to_c (G : tcx) (e : pexpr) {struct e} : tres cexpr :=
               tbind (to_c G a) (fun a' =>
               match infer G a with
               | None => NotModelled why_infer
-              | Some LString => TOk (CToNum fl (match a' with CStrLit _ => true | _ => false end) a')
+              | Some LString => TOk (CToNum fl (charp_src a) a')
               | Some _ => TOk (CCast (if fl then TFloat else TInt) a')
               end)
             else if nokw && text_eqb f n_bool then tbind (to_c G a) (fun a' => TOk (CCast TBool a'))
@@ -412,7 +426,8 @@ Fixpoint expr_guard (G : tcx) (rho : env) (e : pexpr) {struct e} : bool :=
   | EBin op a b =>
       expr_guard G rho a && expr_guard G rho b &&
       match pv rho a, pv rho b, sty G a, sty G b with
-      | Some x, Some y, Some ta, Some tb => bin_guard op x y ta tb && res_fits (py_bin op x y)
+      | Some x, Some y, Some ta, Some tb =>
+          bin_guard op x y (if add_wrap op a b then TString else ta) tb && res_fits (py_bin op x y)
       | _, _, _, _ => false
       end
   | EUn op a =>
